@@ -27,7 +27,7 @@ _KEEP = []  # suspended generators / coroutines that stay alive until the proces
 from . import c04 as C04
 
 LEVEL = "fault_enumeration"
-TECHNIQUE = "runtime monitoring: probe battery after random public-API histories (must equal the fresh-process answers) + exhaustive single-fault injection (Exception and BaseException) at every call-out into user/third-party code of every catalogued operation via sys.monitoring failpoints; shadow-store quiescence invariant; cold-process arm (history before the first battery); suspended generators / coroutines kept alive"
+TECHNIQUE = "runtime monitoring: probe battery after random public-API histories (must equal the fresh-process answers) + exhaustive single-fault injection (Exception and BaseException) at every call-out into user/third-party code of every catalogued operation via sys.monitoring failpoints; shadow-store quiescence invariant; cold-process arm (history before the first battery); suspended generators / coroutines kept alive; short-lived values in one scope; twin histories around the first call of a function with forward-referenced annotations"
 LEVEL_TEXT = (
     "Fault arm: exhaustive over the operation catalogue - the number of (operation, call-out, exception class) triples "
     "injected equals the dry-run count. History arm: sampled sequences (length 1-12) over ~40 operations. After every "
